@@ -283,6 +283,11 @@ def run(ctx: Ctx):
         at = GuardView(cfg).guard_atoms(cfg.node_of(sub[0]))
         ok = atom_of("left > 0") in at
     ctx.ob("C20-O3", "R18 table", rs, "range_sum = prefix(right) - prefix(left - 1), the subtraction only for left > 0", ok, "", node=rs.node)
+    # who may read the tree array: the constructor, update and prefix.  A cell holds the sum of the lowbit(i + 1) elements
+    # ending at i - a query that reads cells by itself has to get that block structure right a second time
+    readers = sorted({q.split(".", 1)[1] for q, g_ in ctx.repo.module(MOD).funcs.items() if q.startswith("FenwickTree.") for n_ in own_nodes(g_.node) if isinstance(n_, ast.Attribute) and n_.attr == "_tree" and isinstance(n_.ctx, ast.Load)})
+    extra = [r_ for r_ in readers if r_ not in ("__init__", "update", "prefix")]
+    ctx.ob("C20-O3", "R27 WRITE-OWNERSHIP", rs, "the tree array is read by the constructor, update and prefix only (every other query goes through prefix)", not extra, f"read in {extra}: an aligned block [l, r] of size 2^k is the range of cell r only when the block number l / 2^k is even (cells (2,3), (6,7), (4,7) hold larger ranges)" if extra else "", node=rs.node)
     generic_sweeps(ctx)
 
 
@@ -383,7 +388,13 @@ def _t_update_skips_zero_delta(tree):
     g.body.insert(1 if isinstance(g.body[0], ast.Expr) else 0, M.stmts("if delta == 0:\n    return")[0])
 
 
+def _v_range_sum_reads_cell(tree):
+    g = M.find_func(tree, "FenwickTree.range_sum")
+    M.insert(g, "result = self.prefix(right)", "size = right - left + 1\nif size > 1 and not size & (size - 1) and not left & (size - 1):\n    return self._tree[right]")
+
+
 VARIANTS = [
+    M.Variant("range_sum answers an aligned power-of-two block from one tree cell (seed C20-T)", DS, _v_range_sum_reads_cell, "C20-O3"),
     M.Variant("update returns early for |delta| < 1e-12 (seed C20-M8)", DS, _v_update_skips_tiny_delta, "C20-O3"),
     M.Variant("twin: update returns early for delta == 0", DS, _t_update_skips_zero_delta, None),
     M.Variant("connected() writes a rank", DS, _v_connected_writes, "C20-O1"),
